@@ -239,13 +239,13 @@ theorem segmeta_subset_foldl (L : List Step) (s : Store) (m : Meta) (h : m ∈ (
 /-- the step list of `DeleteSegmentData` in the order of the source: everything else, then segmeta.json -/
 theorem stepsFor_deleteOrder (vs : List Meta) :
     stepsFor deleteOrder vs =
-      (vs.map (fun v => Step.blob v.key) ++ vs.map (fun v => Step.files v.key) ++ vs.map (fun v => Step.mem v.key)
-        ++ vs.map (fun v => Step.pq v.key v.pqids)) ++ [Step.segmeta (vs.map (·.key))] := by
+      (vs.map (fun v => Step.pq v.key v.pqids) ++ vs.map (fun v => Step.blob v.key) ++ vs.map (fun v => Step.files v.key)
+        ++ vs.map (fun v => Step.mem v.key)) ++ [Step.segmeta (vs.map (·.key))] := by
   simp [stepsFor, deleteOrder, phaseSteps]
 
 theorem front_not_isSegmeta (vs : List Meta) (t : Step)
-    (h : t ∈ vs.map (fun v => Step.blob v.key) ++ vs.map (fun v => Step.files v.key) ++ vs.map (fun v => Step.mem v.key)
-        ++ vs.map (fun v => Step.pq v.key v.pqids)) : isSegmeta t = false := by
+    (h : t ∈ vs.map (fun v => Step.pq v.key v.pqids) ++ vs.map (fun v => Step.blob v.key) ++ vs.map (fun v => Step.files v.key)
+        ++ vs.map (fun v => Step.mem v.key)) : isSegmeta t = false := by
   simp only [List.mem_append, List.mem_map] at h
   rcases h with ((⟨v, _, rfl⟩ | ⟨v, _, rfl⟩) | ⟨v, _, rfl⟩) | ⟨v, _, rfl⟩ <;> rfl
 
@@ -291,8 +291,8 @@ theorem interrupt_repeat_old (nowMs : Nat) (hours : Int) (s : Store) (cut : Nat)
   · simp only [he, if_false, Bool.false_eq_true]
     have hfront := front_not_isSegmeta vs
     have hL := stepsFor_deleteOrder vs
-    generalize hF : (vs.map (fun v => Step.blob v.key) ++ vs.map (fun v => Step.files v.key) ++ vs.map (fun v => Step.mem v.key)
-        ++ vs.map (fun v => Step.pq v.key v.pqids)) = F at hfront hL
+    generalize hF : (vs.map (fun v => Step.pq v.key v.pqids) ++ vs.map (fun v => Step.blob v.key) ++ vs.map (fun v => Step.files v.key)
+        ++ vs.map (fun v => Step.mem v.key)) = F at hfront hL
     by_cases hc : cut ≤ F.length
     · -- the segmeta.json rewrite has not happened: the repeated pass selects the same victims
       have htake : (stepsFor deleteOrder vs).take cut = F.take cut := by
@@ -426,13 +426,6 @@ theorem withoutPq_pass (nowMs : Nat) (hours : Int) (s : Store) :
   unfold pass passOld
   simp only [withoutPq_deleteSegmentData, readLocal_withoutPq]
 
-/-- interrupted + repeated = uninterrupted in blob store, local files, in-memory metadata and segmeta.json,
-for every cut point (the empty-PQ meta files are the subject of Props.C14 §3/§4) -/
-theorem interrupt_repeat (nowMs : Nat) (hours : Int) (s : Store) (cut : Nat) :
-    withoutPq (pass deleteOrder nowMs hours (passCut deleteOrder nowMs hours s cut))
-      = withoutPq (pass deleteOrder nowMs hours s) := by
-  rw [withoutPq_pass, withoutPq_passCut, interrupt_repeat_old, ← withoutPq_pass]
-
 /-- an uninterrupted pass with at least one victim runs the whole step list of the victims (with the
 pqids of their .sfm files) -/
 theorem pass_eq_foldl (nowMs : Nat) (hours : Int) (s : Store)
@@ -458,6 +451,263 @@ theorem victims_after_pass (nowMs : Nat) (hours : Int) (s : Store) :
   have h : readLocal (pass deleteOrder nowMs hours s) = readLocal (passOld deleteOrder nowMs hours (withoutPq s)) := by
     rw [← withoutPq_pass]; rfl
   rw [h, victims_after_passOld]
+
+/-! ### interrupt + repeat at full strength (empty-PQ meta files first: repair c14-6) -/
+
+/-- a step that changes no store -/
+def IsNoop (t : Step) : Prop := ∀ s, applyStep s t = s
+
+theorem pq_nil_noop (k : Nat) : IsNoop (Step.pq k []) := by
+  intro s
+  cases s
+  simp [applyStep]
+
+/-- a run absorbs any of its own steps, and any no-ops, done beforehand -/
+theorem absorb_before' (L P : List Step) (s : Store) (h : ∀ t ∈ P, t ∈ L ∨ IsNoop t) :
+    L.foldl applyStep (P.foldl applyStep s) = L.foldl applyStep s := by
+  induction P generalizing s with
+  | nil => rfl
+  | cons t P ih =>
+    simp only [List.foldl_cons]
+    rw [ih _ (fun x hx => h x (List.mem_cons_of_mem _ hx))]
+    rcases h t List.mem_cons_self with hin | hno
+    · rw [foldl_applyStep_comm, absorb_after L s t hin]
+    · rw [hno s]
+
+theorem foldl_foldl_comm (A B : List Step) (s : Store) :
+    B.foldl applyStep (A.foldl applyStep s) = A.foldl applyStep (B.foldl applyStep s) := by
+  induction A generalizing s with
+  | nil => rfl
+  | cons a A ih =>
+    simp only [List.foldl_cons]
+    rw [ih, foldl_applyStep_comm B s a]
+
+/-- the steps commute and are idempotent: the result of a run depends only on the SET of its effective steps -/
+theorem foldl_eq_of_same_steps (A B : List Step) (s : Store)
+    (hAB : ∀ t ∈ A, t ∈ B ∨ IsNoop t) (hBA : ∀ t ∈ B, t ∈ A ∨ IsNoop t) :
+    A.foldl applyStep s = B.foldl applyStep s :=
+  calc A.foldl applyStep s
+      = A.foldl applyStep (B.foldl applyStep s) := (absorb_before' A B s hBA).symm
+    _ = B.foldl applyStep (A.foldl applyStep s) := (foldl_foldl_comm A B s).symm
+    _ = B.foldl applyStep s := absorb_before' B A s hAB
+
+theorem files_foldl (P : List Step) (s : Store) (k : Nat) :
+    k ∈ (P.foldl applyStep s).files ↔ k ∈ s.files ∧ Step.files k ∉ P := by
+  induction P generalizing s with
+  | nil => simp
+  | cons t P ih =>
+    simp only [List.foldl_cons, ih, List.mem_cons, not_or]
+    cases t <;> simp [applyStep, List.mem_filter, and_assoc]
+
+theorem sfmPq_foldl (P : List Step) (s : Store) : (P.foldl applyStep s).sfmPq = s.sfmPq := by
+  induction P generalizing s with
+  | nil => rfl
+  | cons t P ih =>
+    simp only [List.foldl_cons, ih]
+    cases t <;> rfl
+
+/-- the function `withSfmPqids` maps over the victims -/
+def fillPqids (s : Store) (v : Meta) : Meta :=
+  if v.pqids.isEmpty then { v with pqids := sfmPqids s v.key } else v
+
+theorem withSfmPqids_eq_map (s : Store) (vs : List Meta) : withSfmPqids s vs = vs.map (fillPqids s) := rfl
+
+theorem fillPqids_key (s : Store) (v : Meta) : (fillPqids s v).key = v.key := by
+  unfold fillPqids; split <;> rfl
+
+/-- the pqids `DeleteSegmentData` works with in the repeated run: the same as in the first run, or none — and
+then the victim's files were removed by the first run -/
+theorem fillPqids_repeat (s s1 : Store) (v : Meta) (hq : s1.sfmPq = s.sfmPq)
+    (hsub : v.key ∈ s1.files → v.key ∈ s.files) :
+    (fillPqids s1 v).pqids = (fillPqids s v).pqids ∨
+      ((fillPqids s1 v).pqids = [] ∧ v.key ∈ s.files ∧ v.key ∉ s1.files) := by
+  unfold fillPqids
+  by_cases he : v.pqids.isEmpty = true
+  · simp only [if_pos he]
+    unfold sfmPqids
+    by_cases h1 : v.key ∈ s1.files
+    · left; simp only [if_pos h1, if_pos (hsub h1), hq]
+    · by_cases h0 : v.key ∈ s.files
+      · right; exact ⟨if_neg h1, h0, h1⟩
+      · left; simp only [if_neg h1, if_neg h0]
+  · left; simp only [if_neg he]
+
+theorem mem_steps_withSfm (s : Store) (vs : List Meta) (t : Step) :
+    t ∈ stepsFor deleteOrder (withSfmPqids s vs) ↔
+      (∃ v ∈ vs, t = Step.pq v.key (fillPqids s v).pqids) ∨ (∃ v ∈ vs, t = Step.blob v.key)
+        ∨ (∃ v ∈ vs, t = Step.files v.key) ∨ (∃ v ∈ vs, t = Step.mem v.key) ∨ t = Step.segmeta (vs.map (·.key)) := by
+  rw [stepsFor_deleteOrder, withSfmPqids_keys, withSfmPqids_eq_map]
+  simp only [List.map_map, List.mem_append, List.mem_map, List.mem_singleton, Function.comp_def, fillPqids_key]
+  constructor
+  · rintro ((((⟨v, hv, rfl⟩ | ⟨v, hv, rfl⟩) | ⟨v, hv, rfl⟩) | ⟨v, hv, rfl⟩) | rfl)
+    · exact Or.inl ⟨v, hv, rfl⟩
+    · exact Or.inr (Or.inl ⟨v, hv, rfl⟩)
+    · exact Or.inr (Or.inr (Or.inl ⟨v, hv, rfl⟩))
+    · exact Or.inr (Or.inr (Or.inr (Or.inl ⟨v, hv, rfl⟩)))
+    · exact Or.inr (Or.inr (Or.inr (Or.inr rfl)))
+  · rintro (⟨v, hv, rfl⟩ | ⟨v, hv, rfl⟩ | ⟨v, hv, rfl⟩ | ⟨v, hv, rfl⟩ | rfl)
+    · exact Or.inl (Or.inl (Or.inl (Or.inl ⟨v, hv, rfl⟩)))
+    · exact Or.inl (Or.inl (Or.inl (Or.inr ⟨v, hv, rfl⟩)))
+    · exact Or.inl (Or.inl (Or.inr ⟨v, hv, rfl⟩))
+    · exact Or.inl (Or.inr ⟨v, hv, rfl⟩)
+    · exact Or.inr rfl
+
+theorem mem_take_front {α} (A R : List α) (n : Nat) (h : A.length ≤ n) (t : α) (ht : t ∈ A) : t ∈ (A ++ R).take n := by
+  induction A generalizing n with
+  | nil => cases ht
+  | cons a A ih =>
+    cases n with
+    | zero => simp at h
+    | succ n =>
+      simp only [List.cons_append, List.take_succ_cons, List.mem_cons]
+      rcases List.mem_cons.mp ht with rfl | ht'
+      · exact Or.inl rfl
+      · exact Or.inr (ih n (by simpa using h) ht')
+
+/-- the empty-PQ phase comes before the files phase: once the first run has removed the local files of ANY
+victim, it has done every empty-PQ step -/
+theorem pq_steps_done_before_files (ws : List Meta) (cut k : Nat)
+    (hf : Step.files k ∈ (stepsFor deleteOrder ws).take cut) (v : Meta) (hv : v ∈ ws) :
+    Step.pq v.key v.pqids ∈ (stepsFor deleteOrder ws).take cut := by
+  rw [stepsFor_deleteOrder] at hf ⊢
+  have hassoc : (ws.map (fun v => Step.pq v.key v.pqids) ++ ws.map (fun v => Step.blob v.key) ++ ws.map (fun v => Step.files v.key)
+        ++ ws.map (fun v => Step.mem v.key)) ++ [Step.segmeta (ws.map (·.key))]
+      = (ws.map (fun v => Step.pq v.key v.pqids) ++ ws.map (fun v => Step.blob v.key)) ++ (ws.map (fun v => Step.files v.key)
+        ++ ws.map (fun v => Step.mem v.key) ++ [Step.segmeta (ws.map (·.key))]) := by
+    simp only [List.append_assoc]
+  by_cases hc : cut ≤ (ws.map (fun v => Step.pq v.key v.pqids) ++ ws.map (fun v => Step.blob v.key)).length
+  · exfalso
+    rw [hassoc, List.take_append_of_le_length hc] at hf
+    have := List.mem_of_mem_take hf
+    simp only [List.mem_append, List.mem_map] at this
+    rcases this with ⟨w, _, h⟩ | ⟨w, _, h⟩ <;> cases h
+  · have hlen : (ws.map (fun v => Step.pq v.key v.pqids)).length ≤ cut := by
+      simp only [List.length_append, List.length_map] at hc ⊢; omega
+    simp only [List.append_assoc]
+    exact mem_take_front _ _ cut hlen _ (List.mem_map.mpr ⟨v, hv, rfl⟩)
+
+/-- KEY: a run of `DeleteSegmentData` cut after any number of micro-steps, followed by a complete run for the
+same victims (which reads the pqids again, from the .sfm files that are still there), ends in the state of
+one complete run — in every store -/
+theorem repeat_same_result (vs : List Meta) (s : Store) (cut : Nat) :
+    (stepsFor deleteOrder (withSfmPqids (((stepsFor deleteOrder (withSfmPqids s vs)).take cut).foldl applyStep s) vs)).foldl applyStep
+        (((stepsFor deleteOrder (withSfmPqids s vs)).take cut).foldl applyStep s)
+      = (stepsFor deleteOrder (withSfmPqids s vs)).foldl applyStep s := by
+  generalize hP : (stepsFor deleteOrder (withSfmPqids s vs)).take cut = P
+  generalize hs1 : P.foldl applyStep s = s1
+  have hq : s1.sfmPq = s.sfmPq := by rw [← hs1]; exact sfmPq_foldl P s
+  have hfiles : ∀ k, k ∈ s1.files ↔ k ∈ s.files ∧ Step.files k ∉ P := by
+    intro k; rw [← hs1]; exact files_foldl P s k
+  have hPL : ∀ t ∈ P, t ∈ stepsFor deleteOrder (withSfmPqids s vs) := by
+    intro t ht; rw [← hP] at ht; exact List.mem_of_mem_take ht
+  rw [← hs1, ← List.foldl_append]
+  apply foldl_eq_of_same_steps
+  · intro t ht
+    rcases List.mem_append.mp ht with htP | htL
+    · exact Or.inl (hPL t htP)
+    · rw [hs1] at htL
+      rcases (mem_steps_withSfm s1 vs t).mp htL with ⟨v, hv, rfl⟩ | h
+      · rcases fillPqids_repeat s s1 v hq (fun h => ((hfiles v.key).mp h).1) with he | ⟨he, _, _⟩
+        · rw [he]; exact Or.inl ((mem_steps_withSfm s vs _).mpr (Or.inl ⟨v, hv, rfl⟩))
+        · rw [he]; exact Or.inr (pq_nil_noop v.key)
+      · exact Or.inl ((mem_steps_withSfm s vs t).mpr (Or.inr h))
+  · intro t ht
+    rcases (mem_steps_withSfm s vs t).mp ht with ⟨v, hv, rfl⟩ | h
+    · rcases fillPqids_repeat s s1 v hq (fun h => ((hfiles v.key).mp h).1) with he | ⟨_, h0, h1⟩
+      · left
+        apply List.mem_append.mpr; right
+        rw [hs1, ← he]
+        exact (mem_steps_withSfm s1 vs _).mpr (Or.inl ⟨v, hv, rfl⟩)
+      · -- the victim's files went in the first run: so did its empty-PQ step
+        left
+        apply List.mem_append.mpr; left
+        have hfk : Step.files v.key ∈ P := by
+          by_cases hin : Step.files v.key ∈ P
+          · exact hin
+          · exact absurd ((hfiles v.key).mpr ⟨h0, hin⟩) h1
+        rw [← hP] at hfk ⊢
+        have := pq_steps_done_before_files (withSfmPqids s vs) cut v.key hfk (fillPqids s v)
+          (by rw [withSfmPqids_eq_map]; exact List.mem_map.mpr ⟨v, hv, rfl⟩)
+        rwa [fillPqids_key] at this
+    · left
+      apply List.mem_append.mpr; right
+      rw [hs1]
+      exact (mem_steps_withSfm s1 vs t).mpr (Or.inr h)
+
+/-- interrupted + repeated = uninterrupted, in ALL five stores, for every store, clock, retention and cut point -/
+theorem interrupt_repeat_full (nowMs : Nat) (hours : Int) (s : Store) (cut : Nat) :
+    pass deleteOrder nowMs hours (passCut deleteOrder nowMs hours s cut) = pass deleteOrder nowMs hours s := by
+  generalize hvs : victims nowMs hours 0 (readLocal s) = vs
+  by_cases he : vs.isEmpty = true
+  · unfold passCut deleteSegmentData; simp only [hvs, he, if_true]
+  · have hne : (victims nowMs hours 0 (readLocal s)).isEmpty = false := by rw [hvs]; simpa using he
+    have hs1 : passCut deleteOrder nowMs hours s cut = ((stepsFor deleteOrder (withSfmPqids s vs)).take cut).foldl applyStep s := by
+      unfold passCut deleteSegmentData runSteps; simp only [hvs, he, if_false, Bool.false_eq_true]
+    have hfront := front_not_isSegmeta (withSfmPqids s vs)
+    have hL := stepsFor_deleteOrder (withSfmPqids s vs)
+    generalize hF : ((withSfmPqids s vs).map (fun v => Step.pq v.key v.pqids) ++ (withSfmPqids s vs).map (fun v => Step.blob v.key)
+        ++ (withSfmPqids s vs).map (fun v => Step.files v.key) ++ (withSfmPqids s vs).map (fun v => Step.mem v.key)) = F at hfront hL
+    by_cases hc : cut ≤ F.length
+    · -- segmeta.json has not been rewritten: the repeated pass selects the same victims
+      have htake : (stepsFor deleteOrder (withSfmPqids s vs)).take cut = F.take cut := by
+        rw [hL]; exact List.take_append_of_le_length hc
+      have hsm : (passCut deleteOrder nowMs hours s cut).segmetaJson = s.segmetaJson := by
+        rw [hs1, htake]
+        exact segmeta_foldl_of_not_isSegmeta _ s (fun t ht => hfront t (List.mem_of_mem_take ht))
+      have hrl : readLocal (passCut deleteOrder nowMs hours s cut) = readLocal s := by
+        unfold readLocal; rw [hsm]
+      have hne1 : (victims nowMs hours 0 (readLocal (passCut deleteOrder nowMs hours s cut))).isEmpty = false := by
+        rw [hrl]; exact hne
+      rw [pass_eq_foldl nowMs hours _ hne1, pass_eq_foldl nowMs hours s hne, hrl, hvs, hs1]
+      exact repeat_same_result vs s cut
+    · -- the whole step list ran: the repeated pass finds nothing to do
+      have hlen : (stepsFor deleteOrder (withSfmPqids s vs)).length ≤ cut := by
+        rw [hL]; simp; omega
+      have hfull : passCut deleteOrder nowMs hours s cut = pass deleteOrder nowMs hours s := by
+        rw [hs1, List.take_of_length_le hlen, pass_eq_foldl nowMs hours s hne, hvs]
+      rw [hfull]
+      have hnil := victims_after_pass nowMs hours s
+      generalize pass deleteOrder nowMs hours s = s2 at hnil
+      unfold pass deleteSegmentData
+      simp only [hnil, List.isEmpty_nil, if_true]
+
+/-! ### records after a pass -/
+
+theorem mem_recordEmpty (s : Store) (e x : Nat × Nat) : x ∈ (recordEmpty s e).pqMeta ↔ x ∈ s.pqMeta ∨ x = e := by
+  unfold recordEmpty
+  split
+  · rename_i h
+    constructor
+    · exact Or.inl
+    · rintro (h' | rfl)
+      · exact h'
+      · exact h
+  · simp
+
+theorem mem_recordAll (s : Store) (es : List (Nat × Nat)) (x : Nat × Nat) :
+    x ∈ (recordAll s es).pqMeta ↔ x ∈ s.pqMeta ∨ x ∈ es := by
+  unfold recordAll
+  induction es generalizing s with
+  | nil => simp
+  | cons e es ih =>
+    simp only [List.foldl_cons, ih, mem_recordEmpty, List.mem_cons, or_assoc]
+
+theorem withoutPq_recordAll (s : Store) (es : List (Nat × Nat)) : withoutPq (recordAll s es) = withoutPq s := by
+  unfold recordAll
+  induction es generalizing s with
+  | nil => rfl
+  | cons e es ih =>
+    simp only [List.foldl_cons, ih]
+    unfold recordEmpty
+    split <;> rfl
+
+theorem pqMeta_subset_foldl (L : List Step) (s : Store) (e : Nat × Nat) (h : e ∈ (L.foldl applyStep s).pqMeta) :
+    e ∈ s.pqMeta := by
+  induction L generalizing s with
+  | nil => exact h
+  | cons t L ih =>
+    have := ih _ h
+    cases t <;> first | exact this | exact (List.mem_filter.mp this).1
 
 /-! ### the volume pass -/
 
